@@ -102,8 +102,9 @@ def unchecked(rep, stream, line, i, m=None):
         o = C._run_shard((C.VRUN(UNIT) if ti else C.VH(UNIT), [line], 3 * QUICK_ANSWER_S))[0]
         if o != "TIMEOUT" and time.time() - t0 <= QUICK_ANSWER_S:
             return False
-    st = rep.streams.setdefault(stream, {})
+    st = rep.streams.setdefault(stream, {"cases": 0, "disagreements": 0, "classes": {}, "results": {}})
     st["unchecked"] = st.get("unchecked", 0) + 1
+    st.setdefault("unchecked_lines", []).append(line[:120] + (" … (%d bytes)" % len(line) if len(line) > 120 else ""))
     u = rep.extra.setdefault("unchecked", {"total": 0, "policy": "a case one side did not finish within the time limit (also alone, with 3x the limit) "
                                            "is not compared and not a failure, unless the other side answers it alone within %d s" % QUICK_ANSWER_S})
     u["total"] += 1
